@@ -13,13 +13,15 @@
      int/uint are Z (no wrap-around), arrays of <= 3 elements are tuples, longer arrays and slices
      are lists, an out-of-range index is not a panic but the zero value (Render/RgLib.v).
      *_prefix theorems tie only the statements before the named call of the Go function.
-   Not covered (effects, recursion, channels): the layer/cube walks of marchingCubes /
-   marchingSquares, processCube / processSquare, the cache map, Delaunay2d's main loop, the sort in
+   processCube / processSquare are translated as the list of events one activation makes (trace
+   targets); octree_step / quadtree_step say the model recursion is its interpretation.
+   Not covered (effects, channels): the layer/cube walks of marchingCubes / marchingSquares, the
+   cache map of dcache3/dcache2 (evaluate is a function parameter), Delaunay2d's main loop, the sort in
    TriangleISet.Canonical; those stay tied by differential execution (C05-C08, C20). *)
 From Coq Require Import ZArith NArith List Bool.
 From Sdfx Require Import Num.Ops Num.FInst Geo.Vec Geo.Box Geo.Mat Render.MC Render.MS Render.Lattice Render.Interp
   Render.Octree Render.Sample Render.RgLib Algo.Canon Algo.Delaunay Io.Stl
-  Generated.RenderExpr Render.GenEqRender Render.GenEqMC Algo.GenEqDelaunay Io.GenEqStl.
+  Generated.RenderExpr Render.GenEqRender Render.GenEqMC Render.GenEqOct Algo.GenEqDelaunay Io.GenEqStl.
 Import OpsNotations ListNotations.
 Local Open Scope ops_scope.
 
@@ -126,6 +128,54 @@ Theorem TRANSL_render_dcache2_isEmpty : forall (O : Ops) (origin : V2 O) (res : 
     quad_empty res fv m v.
 Proof. exact (@dcache2_isEmpty_eq). Qed.
 Print Assumptions TRANSL_render_dcache2_isEmpty.
+
+(* processCube / processSquare: one activation as the list of its events (RgOut = the value written,
+   RgCall = the arguments of a recursive call), dc.isEmpty and dc.evaluate as function parameters *)
+Theorem TRANSL_render_processCube_cell : forall (O : Ops) (origin : V3 O) (res : T O) (fv : pt -> T O)
+    (E : (Z * Z * Z) * Z -> bool) (v : Z * Z * Z),
+    rg_render_dcache3_processCube E (fun vi => (oct_point origin res vi, fv vi)) v 1 =
+    if E (v, 1%Z) then [] else [RgOut (oct_cell origin res fv v)].
+Proof. exact (@processCube_cell_eq). Qed.
+Print Assumptions TRANSL_render_processCube_cell.
+
+Theorem TRANSL_render_processCube_node : forall (O : Ops) (E : (Z * Z * Z) * Z -> bool) (ev : pt -> V3 O * T O) (v : Z * Z * Z) (m : nat),
+    rg_render_dcache3_processCube E ev v (Z.of_nat (S (S m))) =
+    if E (v, Z.of_nat (S (S m))) then [] else map (fun c => RgCall (c, Z.of_nat (S m))) (oct_children m v).
+Proof. exact (@processCube_node_eq). Qed.
+Print Assumptions TRANSL_render_processCube_node.
+
+Theorem TRANSL_render_octree_step : forall (O : Ops) (origin : V3 O) (res : T O) (fv : pt -> T O) (n m : nat) (v : pt),
+    (S m < n)%nat ->
+    octree origin res fv m v =
+    run_trace (fun a : pt * Z => octree origin res fv (pred m) (fst a))
+      (rg_render_dcache3_processCube
+         (fun a => rg_render_dcache3_isEmpty (hdiag3_table res n) (fun vi => (oct_point origin res vi, fv vi)) (fst a) (snd a))
+         (fun vi => (oct_point origin res vi, fv vi)) v (Z.of_nat (S m))).
+Proof. exact (@octree_step). Qed.
+Print Assumptions TRANSL_render_octree_step.
+
+Theorem TRANSL_render_processSquare_cell : forall (O : Ops) (origin : V2 O) (res : T O) (fv : pt2 -> T O)
+    (E : (Z * Z) * Z -> bool) (v : Z * Z),
+    rg_render_dcache2_processSquare E (fun vi => (quad_point origin res vi, fv vi)) v 1 =
+    if E (v, 1%Z) then [] else [RgOut (quad_cell origin res fv v)].
+Proof. exact (@processSquare_cell_eq). Qed.
+Print Assumptions TRANSL_render_processSquare_cell.
+
+Theorem TRANSL_render_processSquare_node : forall (O : Ops) (E : (Z * Z) * Z -> bool) (ev : pt2 -> V2 O * T O) (v : Z * Z) (m : nat),
+    rg_render_dcache2_processSquare E ev v (Z.of_nat (S (S m))) =
+    if E (v, Z.of_nat (S (S m))) then [] else map (fun c => RgCall (c, Z.of_nat (S m))) (quad_children m v).
+Proof. exact (@processSquare_node_eq). Qed.
+Print Assumptions TRANSL_render_processSquare_node.
+
+Theorem TRANSL_render_quadtree_step : forall (O : Ops) (origin : V2 O) (res : T O) (fv : pt2 -> T O) (n m : nat) (v : pt2),
+    (S m < n)%nat ->
+    quadtree origin res fv m v =
+    run_trace (fun a : pt2 * Z => quadtree origin res fv (pred m) (fst a))
+      (rg_render_dcache2_processSquare
+         (fun a => rg_render_dcache2_isEmpty (hdiag2_table res n) (fun vi => (quad_point origin res vi, fv vi)) (fst a) (snd a))
+         (fun vi => (quad_point origin res vi, fv vi)) v (Z.of_nat (S m))).
+Proof. exact (@quadtree_step). Qed.
+Print Assumptions TRANSL_render_quadtree_step.
 
 (* ---------------------------------------------------------------- render/delaunay.go, sdf/triangle2.go *)
 Theorem TRANSL_render_Less : forall (a : list (Z * Z * Z)) (i j : Z),
